@@ -120,6 +120,9 @@ type canon struct {
 	opt    Options
 	labels map[*V]int
 	sb     strings.Builder
+	// inKey: containers on the way from a map down to the key being rendered for sorting; a
+	// key that (through an object) holds the map it belongs to would otherwise never end
+	inKey map[*V]bool
 }
 
 // Canon renders the graph rooted at v.
@@ -130,8 +133,10 @@ func Canon(v *V, opt Options) string {
 }
 
 // keyString renders a map key in a fresh label space (used for sorting only).
-func keyString(v *V, opt Options) string {
-	return Canon(v, opt)
+func keyString(v *V, opt Options, inKey map[*V]bool) string {
+	c := &canon{opt: opt, labels: map[*V]int{}, inKey: inKey}
+	c.walk(v)
+	return c.sb.String()
 }
 
 func (c *canon) walk(v *V) {
@@ -246,7 +251,16 @@ func (c *canon) walk(v *V) {
 			if !c.opt.OrderedMaps {
 				keys := make([]string, n)
 				for i := 0; i < n; i++ {
-					keys[i] = keyString(v.Elems[2*i], c.opt)
+					if c.inKey == nil {
+						c.inKey = map[*V]bool{}
+					}
+					if c.inKey[v] {
+						keys[i] = "<enclosing map>"
+						continue
+					}
+					c.inKey[v] = true
+					keys[i] = keyString(v.Elems[2*i], c.opt, c.inKey)
+					delete(c.inKey, v)
 				}
 				sort.SliceStable(idx, func(a, b int) bool { return keys[idx[a]] < keys[idx[b]] })
 			}
